@@ -12,7 +12,7 @@ import glob
 import common as C
 
 CLS = {1: "comma_set", 2: "star", 3: "reversed_range", 4: "paren_group", 5: "not_or_arity",
-       6: "unknown_key", 7: "substring_flag", 8: "text_atom", 9: "uid_search_single",
+       6: "unknown_key", 8: "text_atom", 9: "uid_search_single",
        10: "uid_search_ignores_keys", 11: "quoted_space"}
 MONTHS = ["Jan", "Feb", "Mar", "Apr", "May", "Jun", "Jul", "Aug", "Sep", "Oct", "Nov", "Dec"]
 SYSFLAGS = ["Answered", "Deleted", "Draft", "Flagged", "Seen", "Recent"]
